@@ -203,6 +203,7 @@ func c16Actors() []c16Actor {
 		{"V watch, blocked Next, closed at quiescence", func(e *c16Env, k int) {
 			stream, err := coll(e).Watch(e.w.Ctx, bson.A{})
 			e.note("V.watch", err)
+			sched.NoteStream(stream)
 			if err != nil {
 				return
 			}
